@@ -380,7 +380,14 @@ func (tr *Translator) index(x, i tv) tv {
 		f.enc.declSortOf(es)
 		arr := f.p.sliceArray(et)
 		as := ArrSort(SInt, ArrSort(SInt, es))
-		return tv{Select(Select(tr.stVar(arr, as), SPtr(x.t)), Add(SOff(x.t), i.t)), et}
+		// element access through an uninterpreted accessor (axiomatised as the select), so that
+		// quantifier triggers contain no arithmetic
+		inner := ArrSort(SInt, es)
+		fn := f.enc.declFun("at_"+sortSuffix(es), []Sort{inner, SInt, SInt}, es)
+		if len(f.enc.facts[fn]) == 0 {
+			f.enc.addFact(fn, fmt.Sprintf("(assert (forall ((a!t %s) (o!t Int) (i!t Int)) (! (= (%s a!t o!t i!t) (select a!t (+ o!t i!t))) :pattern ((%s a!t o!t i!t)))))", inner, fn, fn))
+		}
+		return tv{App(es, fn, Select(tr.stVar(arr, as), SPtr(x.t)), SOff(x.t), i.t), et}
 	case x.t.Sort == SStr:
 		return tv{App(SInt, "byteAt", x.t, i.t), types.Typ[types.Uint8]}
 	case x.ty != nil:
@@ -425,6 +432,14 @@ func (tr *Translator) quant(x *EQuant) tv {
 	}
 	tr.bound = nb
 	body := tr.boolExpr(x.Body)
+	var pats []string
+	for _, grp := range x.Patterns {
+		var ts []string
+		for _, pe := range grp {
+			ts = append(ts, tr.expr(pe).t.S)
+		}
+		pats = append(pats, ":pattern ("+strings.Join(ts, " ")+")")
+	}
 	tr.bound = saved
 	kw := "forall"
 	if x.Forall {
@@ -432,6 +447,9 @@ func (tr *Translator) quant(x *EQuant) tv {
 	} else {
 		kw = "exists"
 		body = And(append(guards, body)...)
+	}
+	if len(pats) > 0 {
+		return tv{T{fmt.Sprintf("(%s (%s) (! %s %s))", kw, strings.Join(decl, " "), body.S, strings.Join(pats, " ")), SBool}, tyBool}
 	}
 	return tv{T{fmt.Sprintf("(%s (%s) %s)", kw, strings.Join(decl, " "), body.S), SBool}, tyBool}
 }
@@ -683,13 +701,14 @@ func (tr *Translator) specApp(sf *SpecFn, args []tv) tv {
 		}
 		for i, p := range sf.Params {
 			a := args[i]
-			if a.ty == nil || a.t.Sort == "Nil" {
-				pt := tr.goType(p.Type)
-				if a.t.Sort == "Nil" {
-					a, _ = tr.coerceNil(a, tv{f.enc.zero(f.p.sortOf(pt)), pt})
-				}
-				a.ty = pt
+			pt := tr.goType(p.Type)
+			if a.t.Sort == "Nil" {
+				a, _ = tr.coerceNil(a, tv{f.enc.zero(f.p.sortOf(pt)), pt})
 			}
+			if a.t.Sort != f.p.sortOf(pt) {
+				tr.fail("spec %s: argument %d has sort %s, expected %s", sf.Name, i, a.t.Sort, f.p.sortOf(pt))
+			}
+			a.ty = pt
 			nb[p.Name] = a
 		}
 		tr.bound = nb
@@ -830,8 +849,9 @@ func (tr *Translator) useInstance(u *Clause) (out []string) {
 	tr.bound = nb
 	body := tr.boolExpr(lm.Body)
 	tr.bound = saved
-	if lm.Proved != "definition" {
-		tr.f.enc.assumed[fmt.Sprintf("lemma %s (%s)", lm.Name, lm.Proved)] = true
+	tr.f.p.usedLemmas[lm.Name] = true
+	if lm.Proved == "definition" {
+		tr.f.enc.assumed[fmt.Sprintf("axiom %s: definitional unfolding of a spec function (trusted)", lm.Name)] = true
 	}
 	return []string{"(assert " + body.S + ")"}
 }
